@@ -3,6 +3,7 @@ package main
 import (
 	"bufio"
 	"encoding/json"
+	"hash/crc32"
 	"flag"
 	"fmt"
 	"os"
@@ -143,8 +144,9 @@ func runEvent(inst *Instance, pre M, msg M, faults []bool) M {
 	obs := M{"res": r.Res, "resp": inst.ProjectResp(gets(msg, "type"), r), "calls": inst.ProjectCalls(r.Calls),
 		"evs": inst.ProjectEvents(r.Events), "post": post, "junk": toAny(junk), "writes": inst.ProjectWrites(r.Writes), "vas": vas}
 	if withQueries {
-		obs["q"] = inst.QueryView(uint64(1 + len(r.Calls) + len(getm(post, "bal"))%1 + int(inst.qn%3)))
-		inst.qn++
+		// page size 1..4, a function of the message only (so that a replay asks the same pages)
+		mb, _ := json.Marshal(msg)
+		obs["q"] = inst.QueryView(uint64(1 + crc32.ChecksumIEEE(mb)%4))
 	}
 	ev := M{"msg": msg, "faults": used, "obs": obs}
 	if r.Err != "" {
@@ -205,6 +207,12 @@ func cmdEdges(tab *SymTab, rd *os.File, bw *bufio.Writer, workers int) {
 					cur = getm(getm(ev, "obs"), "post")
 				}
 				h := M{"id": j.id, "init": init, "initok": len(junk0) == 0 && sameState(pre, init), "events": outEvs}
+				if !h["initok"].(bool) {
+					// the chain initialised from the intended state does not hold that state: report both,
+					// Trace.tla judges the initialisation step itself
+					h["pre"] = fullState(pre, init)
+					h["junk0"] = toAny(junk0)
+				}
 				bz, err := json.Marshal(h)
 				if err != nil {
 					panic(err)
